@@ -322,6 +322,20 @@ def run_c12(tier, seed):
                         prog.append(("ZREVRANGEBYSCORE", [b"z1", mx, mn] + ws + [b"LIMIT", str(off).encode(), str(cnt).encode()]))
             grid["zrevrangebyscore"] += len(prog) - len(setup)
             cases.append(prog_case(prog, [], "ZREVRANGEBYSCORE on %d members, 4 ranges x LIMIT grid %s" % (n, "WITHSCORES" if ws else "")))
+    # replies with many elements (the element counts the parser pre-allocates for, 1024, and beyond): derived commands that
+    # rebuild or reverse an array must keep every element
+    for nbig in ((513, 1025) if tier == "quick" else (513, 1024, 1025, 1500, 2049)):
+        zsetup = [("ZADD", [b"zb"] + [x for i in range(lo, min(lo + 200, nbig)) for x in (str(i).encode(), b"m%05d" % i)]) for lo in range(0, nbig, 200)]
+        prog = zsetup + [("ZCARD", [b"zb"]), ("ZREVRANGE", [b"zb", b"0", b"-1"]), ("ZREVRANGE", [b"zb", b"0", b"-1", b"WITHSCORES"]), ("ZREVRANGEBYSCORE", [b"zb", b"+inf", b"-inf"]),
+                         ("ZREVRANGEBYSCORE", [b"zb", b"+inf", b"-inf", b"WITHSCORES"]), ("ZREVRANGEBYSCORE", [b"zb", b"+inf", b"-inf", b"LIMIT", b"3", str(nbig - 5).encode()])]
+        cases.append(prog_case(prog, [], "ZREVRANGE / ZREVRANGEBYSCORE over %d members (replies of up to %d elements)" % (nbig, 2 * nbig)))
+        hsetup = [("HMSET", [b"hb"] + [x for i in range(lo, min(lo + 200, nbig)) for x in (b"f%05d" % i, b"v%d" % i)]) for lo in range(0, nbig, 200)]
+        prog = hsetup + [("HLEN", [b"hb"]), ("HKEYS", [b"hb"]), ("HVALS", [b"hb"]), ("HMGET", [b"hb"] + [b"f%05d" % i for i in range(nbig)])]
+        cases.append(prog_case(prog, [], "HKEYS / HVALS / HMGET over %d fields" % nbig))
+        ssetup = [("MSET", [x for i in range(lo, min(lo + 200, nbig)) for x in (b"k%05d" % i, b"v%d" % i)]) for lo in range(0, nbig, 200)]
+        prog = ssetup + [("MGET", [b"k%05d" % i for i in range(nbig)])]
+        cases.append(prog_case(prog, [], "MSET / MGET over %d keys" % nbig))
+        grid["random"] += 3
     # counters at the int64 boundaries and on non-integers
     STARTS = [None, b"0", b"10", b"-1", b"9223372036854775807", b"-9223372036854775808", b"9223372036854775806", b"-9223372036854775807", b"abc", b"", b" 1", b"1.0", b"+5", b"007", b"-0", b"1e3",
               b"9223372036854775808", b"-9223372036854775809"]
